@@ -321,6 +321,202 @@ def gen_modelcount(tree):
     return txt, f
 
 
+DIAG, LOC, OPTI = "diag", "loc", T.OPTI
+_lty1 = lty
+
+
+def lty2(t):
+    if t == DIAG:
+        return "δ"
+    if t == LOC:
+        return "ℓ"
+    if t == ("dict", DIAG):
+        return "(List ((Option Int) × δ))"
+    if isinstance(t, tuple) and t[0] == "arr1" and t[1] == LOC:
+        return "(List ℓ)"
+    if isinstance(t, tuple) and t[0] == "tuple":
+        return "(" + " × ".join(lty2(x) for x in t[1]) + ")"
+    return _lty1(t)
+
+
+class OracleInitFn(AddFn):
+    """ShapleyOracle.__init__: the boundary diagrams.  Diagram objects (`δ`), update locations (`ℓ`) and tally values (`ν`) are abstract; the diagram methods
+    are parameters: `update d loc v increment`, `get_unit_location d unit` (= `d.get_update_location(units=[unit], values=[0])`), `mk_tally size with without`
+    (= `atype(size, with, without)`), `tally_inf` (= `atype(None)`), `boundary_units t` (= the units of row t: `provenance.data[t, 0, :, 0]` without padding)."""
+    COMPILE = "self._add, locations = compile(provenance=provenance, atype=atype)"
+    SKIP = ("self._provenance = provenance", "self._atype = atype")
+    EYE = "tuple(np.eye(atype.numclasses, dtype=int)[labels[tt]])"
+    ZEROS = "(0,) * atype.numclasses"
+    BUNITS = "list(filter(lambda x: x != -1, provenance.data[t, 0, :, 0]))"
+
+    def field(self, e):
+        if isinstance(e, ast.Attribute) and isinstance(e.value, ast.Name) and e.value.id == "self":
+            return "self" + e.attr            # self._add -> self_add
+        return None
+
+    def expr(self, e):
+        u = U(e)
+        if u == "len(provenance)":
+            return "n_rows", INT
+        if u == "atype.numclasses":
+            return "numclasses", INT
+        if u == self.EYE:
+            return "(Np.eyeRow numclasses (Np.get1 labels tt))", L1(INT)
+        if u == self.ZEROS:
+            return "(Np.rep (0 : Int) numclasses)", L1(INT)
+        if u == self.BUNITS:
+            if self.env.get("t") != OPTI:
+                raise Untranslatable("boundary units outside the loop over boundary rows")
+            return "(boundary_units (t.getD 0))", L1(INT)
+        if u == "deepcopy(self._add)":
+            return "self_add", DIAG
+        if u == "atype(None)":
+            return "tally_inf", VAL
+        if isinstance(e, ast.Call) and U(e.func) == "atype" and len(e.args) == 3 and not e.keywords:
+            a = self.int_expr(e.args[0])
+            (w, tw), (wo, two) = self.expr(e.args[1]), self.expr(e.args[2])
+            if tw != L1(INT) or two != L1(INT):
+                raise Untranslatable("atype(...) arguments")
+            return "(mk_tally %s %s %s)" % (a, w, wo), VAL
+        if isinstance(e, ast.Call) and U(e.func) == "self._add.get_update_location":
+            kws = {k.arg: k.value for k in e.keywords}
+            if e.args or set(kws) != {"units", "values"} or U(kws["values"]) != "[0]" or not (isinstance(kws["units"], ast.List) and len(kws["units"].elts) == 1):
+                raise Untranslatable("get_update_location arguments")
+            return "(get_unit_location self_add %s)" % self.int_expr(kws["units"].elts[0]), LOC
+        if isinstance(e, ast.Subscript) and isinstance(e.value, ast.Name) and self.env.get(e.value.id) == L1(LOC):
+            return "(Np.get1 %s %s)" % (e.value.id, self.int_expr(e.slice)), LOC
+        if isinstance(e, ast.Subscript) and isinstance(e.value, ast.Name) and self.env.get(e.value.id) == T.A1(T.FLT) and isinstance(e.slice, ast.Name) \
+                and self.env.get(e.slice.id) == OPTI:
+            return "(Np.get1 %s (%s.getD 0))" % (e.value.id, e.slice.id), T.FLT        # reached only where `t is None` has been excluded (short-circuit `or`)
+        return AddFn.expr(self, e)
+
+    def update_call(self, s):
+        """`<diagram variable>.update(location=…, avalue=…[, increment=True])` -> (variable, lean text)"""
+        if isinstance(s, ast.Expr) and isinstance(s.value, ast.Call) and isinstance(s.value.func, ast.Attribute) and s.value.func.attr == "update" \
+                and isinstance(s.value.func.value, ast.Name) and self.env.get(s.value.func.value.id) == DIAG:
+            kws = {k.arg: k.value for k in s.value.keywords}
+            if s.value.args or not {"location", "avalue"} <= set(kws) or set(kws) - {"location", "avalue", "increment"}:
+                raise Untranslatable("update arguments")
+            loc, tl = self.expr(kws["location"])
+            v, tv = self.expr(kws["avalue"])
+            inc = U(kws["increment"]) if "increment" in kws else "False"
+            if tl != LOC or tv != VAL or inc not in ("True", "False"):
+                raise Untranslatable("update argument types")
+            var = s.value.func.value.id
+            return var, "(update %s %s %s %s)" % (var, loc, v, inc.lower())
+        return None
+
+    def assigned(self, stmts):
+        names = AddFn.assigned(self, stmts)
+        for st in stmts:
+            for n in ast.walk(st):
+                if isinstance(n, ast.Expr) and isinstance(n.value, ast.Call) and isinstance(n.value.func, ast.Attribute) and n.value.func.attr == "update" \
+                        and isinstance(n.value.func.value, ast.Name) and n.value.func.value.id not in names:
+                    names.append(n.value.func.value.id)
+        return names
+
+    def special(self, s, ind):
+        u = U(s)
+        if u in self.SKIP:
+            return ""
+        if u == self.COMPILE:
+            self.env["self_add"], self.env["locations"] = DIAG, L1(LOC)
+            return ""
+        if isinstance(s, ast.AnnAssign) and self.field(s.target) in ("self_add_with", "self_add_without") and U(s.value) == "{}":
+            return self.bind(self.field(s.target), "[]", ("dict", DIAG), ind)
+        uc = self.update_call(s)
+        if uc is not None:
+            return self.bind(uc[0], uc[1], DIAG, ind)
+        # self._add_with[t] = boundary_add_with
+        if isinstance(s, ast.Assign) and isinstance(s.targets[0], ast.Subscript) and self.field(s.targets[0].value) in ("self_add_with", "self_add_without"):
+            d = self.field(s.targets[0].value)
+            k, tk = self.expr(s.targets[0].slice)
+            v, tv = self.expr(s.value)
+            if tk != OPTI or tv != DIAG:
+                raise Untranslatable("dictionary store %s" % u)
+            return self.bind(d, "(%s ++ [(%s, %s)])" % (d, k, v), ("dict", DIAG), ind)
+        return None
+
+    def bind(self, name, x, t, ind):
+        if name in self.env and self.env[name] != t:
+            raise Untranslatable("%s changes type from %r to %r" % (name, self.env[name], t))
+        self.env[name] = t
+        return "%slet %s : %s := %s\n" % (ind, name, lty2(t), x)
+
+    def tupty(self, names):
+        return lty2(("tuple", tuple(self.env[n] for n in names))) if len(names) > 1 else lty2(self.env[names[0]])
+
+    def unpack(self, names, src, ind):
+        out = ""
+        for k, n in enumerate(names):
+            proj = src if len(names) == 1 else src + ".2" * k + ("" if k == len(names) - 1 else ".1")
+            out += "%slet %s : %s := %s\n" % (ind, n, lty2(self.env[n]), proj)
+        return out
+
+    def iterable(self, s):
+        it, tg = s.iter, s.target
+        if U(it) == "chain(range(len(provenance)), [None])" and isinstance(tg, ast.Name):
+            return "(Np.chainNone (Np.range (0 : Int) n_rows (1 : Int)))", "(%s : Option Int)" % tg.id, [(tg.id, OPTI, None)]
+        if isinstance(it, ast.Name) and self.env.get(it.id) == L1(INT) and isinstance(tg, ast.Name):
+            return it.id, "(%s : Int)" % tg.id, [(tg.id, INT, None)]
+        return AddFn.iterable(self, s)
+
+    def block(self, stmts, ind, in_loop=None):
+        # `if <test>:` (no else) whose body only re-binds existing diagram variables / defines branch-local names
+        if stmts and isinstance(stmts[0], ast.If) and not stmts[0].orelse and not any(isinstance(n, (ast.Continue, ast.Return, ast.Break)) for n in ast.walk(stmts[0])):
+            s, rest = stmts[0], stmts[1:]
+            names = [n for n in self.assigned(list(s.body)) if n in self.env]
+            if names:
+                c = self.bool_expr(s.test)
+                saved = dict(self.env)
+                txt = self.seq(list(s.body), ind + "    ", in_loop)
+                self.env = saved
+                out = "%slet ite_ : %s :=\n%s  if %s then\n%s%s    %s\n%s  else\n%s    %s\n" % (ind, self.tupty(names), ind, c, txt, ind, self.tup(names), ind, ind, self.tup(names))
+                out += self.unpack(names, "ite_", ind)
+                return out + self.block(rest, ind, in_loop)
+        if not stmts and in_loop is None:
+            self.ret = ("tuple", (("dict", DIAG), ("dict", DIAG)))
+            return "%s(self_add_with, self_add_without)\n" % ind
+        return AddFn.block(self, stmts, ind, in_loop)
+
+    def seq(self, stmts, ind, in_loop):
+        out = ""
+        for s in stmts:
+            sp = self.special(s, ind)
+            if sp is not None:
+                out += sp
+            elif isinstance(s, ast.For):
+                out += self.loop(s, [], in_loop, ind)
+            elif isinstance(s, ast.If):
+                raise Untranslatable("nested `if` inside a branch")
+            else:
+                out += self.stmt(s, ind)
+        return out
+
+
+def gen_oracle_init(repo):
+    tree = ast.parse(open(os.path.join(repo, "datascope/importance/oracle.py")).read())
+    fn = method(tree, "ShapleyOracle", "__init__")
+    if [a.arg for a in fn.args.args] != ["self", "provenance", "labels", "distances", "atype"]:
+        raise Untranslatable("signature of ShapleyOracle.__init__")
+    params = [("labels", L1(INT)), ("distances", T.A1(T.FLT))]
+    f = OracleInitFn(fn, params, lean_name="oracle_init")
+    f.ret = None
+    T.lty = lty2
+    try:
+        body = f.block([s for s in fn.body if not (isinstance(s, ast.Expr) and isinstance(s.value, ast.Constant))], "  ")
+    finally:
+        T.lty = lty
+    if f.env.get("self_add") != DIAG:
+        raise Untranslatable("the provenance is not compiled by `compile(provenance=provenance, atype=atype)`")
+    sig = ("{δ ν ℓ α : Type} [Inhabited ℓ] [Inhabited α] [LE α] [DecidableRel (α := α) (· ≤ ·)] (update : δ → ℓ → ν → Bool → δ) (get_unit_location : δ → Int → ℓ) "
+           "(mk_tally : Int → (List Int) → (List Int) → ν) (tally_inf : ν) (boundary_units : Int → (List Int)) (self_add : δ) (locations : (List ℓ)) "
+           "(n_rows : Int) (numclasses : Int) (labels : (List Int)) (distances : (List α))")
+    return ("/-- translated from `ShapleyOracle.__init__`: the cached boundary diagrams `_add_with[t]`, `_add_without[t]` for every boundary row `t` and for `None`, as lists of\n"
+            "(key, diagram) pairs in insertion order.  `self_add`, `locations` = what `compile(provenance, atype)` returned. -/\n"
+            "def oracle_init %s : %s :=\n%s" % (sig, lty2(f.ret), body)), f
+
+
 QUERY = ["unit = self._provenance.units_index[target]",
          "add_with = self._add_with[boundary_with].restrict(unit, 1)",
          "add_without = self._add_without[boundary_without].restrict(unit, 0)",
@@ -380,6 +576,14 @@ def generate(repo=REPO):
                 report[name] = dict(ok=True, notes=f.notes)
             except Untranslatable as e:
                 report[name] = dict(ok=False, why=str(e))
+        try:
+            txt, f = gen_oracle_init(repo)
+            parts.append(txt)
+            report["ShapleyOracle.__init__"] = dict(ok=True, notes=f.notes)
+        except Untranslatable as e:
+            report["ShapleyOracle.__init__"] = dict(ok=False, why=str(e))
+        except SyntaxError as e:
+            report["ShapleyOracle.__init__"] = dict(ok=False, why="syntax: %s" % e)
         try:
             parts.append(gen_query(repo))
             report["ShapleyOracle.query"] = dict(ok=True)
